@@ -234,8 +234,36 @@ def gen_nomail(rng):
     return case(ID['nomail'], [f], b'foo@example.org', HELO, v4(192, 0, 2, 1), files=files)
 
 
+# ---------------------------------------------------------------- dnsbl
+def gen_dnsbl(rng):
+    f, userdir, ipv4 = _flags(rng)
+    ip = v4(rng.choice([1, 10, 192]), rng.choice([0, 99, 255]), rng.choice([2, 100]), rng.choice([1, 77, 200])) if ipv4 or rng.random() < 0.3 else V6
+    files = []
+    for name, v4name in ((b'dnsbl', True), (b'dnsblv6', False)):
+        if rng.random() < (0.9 if v4name == ipv4 else 0.2):
+            for l in _levels(rng, userdir):
+                files.append((l, name, _listfile(rng, RBLS, [b'!inherit'] if rng.random() < 0.4 else [])))
+    for name, v4name in ((b'whitednsbl', True), (b'whitednsblv6', False)):
+        if rng.random() < (0.6 if v4name == ipv4 else 0.2):
+            for l in _levels(rng, userdir):
+                files.append((l, name, _listfile(rng, RBLS[:6])))
+    return case(ID['dnsbl'], [f], b'foo@example.org', HELO, ip, dns=_dns(rng, 10), files=files)
+
+
+# ---------------------------------------------------------------- namebl
+def gen_namebl(rng):
+    f, userdir, _ = _flags(rng)
+    files = []
+    for l in _levels(rng, userdir):
+        files.append((l, b'namebl', _listfile(rng, RBLS, [b'!inherit'] if rng.random() < 0.4 else [])))
+    mf = rng.choice([b'foo@example.org', b'foo@a.b.example.org', b'foo@x', b'', b'foo@a.b.c.d.e.example.org', b'foo@example.org.',
+                     b'foo@' + b'a' * 60 + b'.' + b'b' * 60 + b'.' + b'c' * 60 + b'.org', b'foo@a..b'])
+    t0 = rng.choice([0, 0, 1, 2, 3, 4, 0xea])           # what the previous filter left in *t
+    return case(ID['namebl'], [f, 0, 0, 0, t0], mf, HELO, v4(192, 0, 2, 1), dns=_dns(rng, 14), files=files)
+
+
 GENS = [(gen_badmailfrom, 5), (gen_helo, 4), (gen_ipbl, 4), (gen_soberg, 1), (gen_check2822, 1), (gen_forceesmtp, 2), (gen_badcc, 2),
-        (gen_nomail, 2)]
+        (gen_nomail, 2), (gen_dnsbl, 3), (gen_namebl, 2)]
 
 
 def gen_cases(rng, tier):
